@@ -90,6 +90,8 @@ class ApproxInterp(ArrInterp):
         return super().external_call(name, args, kwargs, node)
 
     def call_builtin(self, name, args, kwargs, node):
+        if name in ("int", "float") and len(args) == 1 and isinstance(args[0], Tagged) and args[0].name in ("max", "min", "amax"):
+            return args[0]  # a numeric conversion of a maximum is that maximum
         if name in ("max", "min") and args and not all(isinstance(a, (int, float)) for a in args):
             return Tagged(name, args)
         return super().call_builtin(name, args, kwargs, node)
